@@ -397,7 +397,7 @@ int bufr_callback_write_message(bufr_write_callback writecb,
    {
 	if( writecb == NULL ) return errno=EINVAL, -1;
 
-   if (bufr->len_msg > BUFR_MAX_MSG_LEN)
+   if (bufr->len_msg >= BUFR_MAX_MSG_LEN)
       {
       char errmsg[256];
 
